@@ -2,7 +2,7 @@
    Only statements, each closed by `exact <lemma>` (or a one-line unfolding), followed by Print Assumptions.
    All theorems are over R (stdlib real axioms), for every number of rows / columns; the model is
    Model/K13_InfoWeight.v instantiated with the real operations [R_ops]. *)
-From Coq Require Import ZArith Reals List Lra Lia Sorted Permutation PrimFloat.
+From Coq Require Import ZArith Reals List Lra Lia Sorted Permutation PrimFloat Bool.
 From VZ Require Import Model.K11_SparseVec Model.K12_Dist Model.K13_InfoWeight
   Proofs.K11_SparseVec_proofs Proofs.K12_RealFacts Proofs.K12_Dist_proofs Proofs.K13_InfoWeight_proofs
   Model.K12_Float Model.K13_Float.
@@ -151,15 +151,107 @@ Example C17_weights_zero_mean_float_nan : exists (w : list PrimFloat.float) (p :
 Proof. exists [PrimFloat.zero; PrimFloat.zero], PrimFloat.two. vm_compute. reflexivity. Qed.
 (* (an Example, not a gated Theorem: it computes with Coq's primitive binary64 operations, which Print Assumptions lists) *)
 
-(* known finding noncanonical-duplicate-entries: with a row index stored twice the search reads one of the two values,
-   not their sum (the theorems above exclude this by NoDup (map fst c)) *)
-Theorem C17_duplicates_refuted : exists (inds : list Z) (data : list Z) (i : Z),
+(* ---- duplicate entries (repaired defect noncanonical-duplicate-entries: information_weight now brings a copy of the
+        CSC form to canonical format, sort_indices + sum_duplicates, before the kernels run).
+        The search alone still needs UNIQUE indices: on sorted indices with a repeated row it reads one of the stored
+        values, not their sum - this is the precondition that sum_duplicates discharges (C17_sum_duplicates). *)
+Theorem C17_search_duplicates_refuted : exists (inds : list Z) (data : list Z) (i : Z),
   StronglySorted Z.le inds /\ In i inds /\
   nth_error data (searchsorted inds i) <> Some (fold_right Z.add 0%Z (map snd (filter (fun e => Z.eqb (fst e) i) (combine inds data)))).
 Proof.
   exists [0; 0; 2]%Z, [1; 1; 3]%Z, 0%Z. split; [repeat constructor; lia|]. split; [left; reflexivity|]. vm_compute. discriminate.
 Qed.
-Print Assumptions C17_duplicates_refuted.
+Print Assumptions C17_search_duplicates_refuted.
+
+(* canonicalisation of one stored column (any order, explicit zeros, repeated row indices; NO uniqueness assumed):
+   strictly increasing indices - the precondition of C17_search_sorted / C17_is_kl - and every index carries the SUM of
+   the values stored for it.  Generalises C17_sort_indices, which it agrees with when there are no duplicates
+   (C17_layout_duplicates_nodup below). *)
+Theorem C17_sum_duplicates : forall eps (c : list (Z * R)),
+  let c' := canon_col R (R_ops eps) c in
+  StronglySorted Z.lt (map fst c')
+  /\ (forall k, lookup R 0 k c' = sumR (map snd (filter (fun e => (fst e =? k)%Z) c)))
+  /\ (forall k, In k (map fst c') -> In k (map fst c))
+  /\ (Forall (fun x => 0 <= x) (map snd c) -> Forall (fun x => 0 <= x) (map snd c')).
+Proof. exact canon_col_spec. Qed.
+Print Assumptions C17_sum_duplicates.
+
+(* the canonical-format test + branch of the code is the same thing as canonicalising every column *)
+Theorem C17_canonicalise_branch : forall eps (cols : list (list (Z * R))),
+  canonicalise R (R_ops eps) cols = map (canon_col R (R_ops eps)) cols.
+Proof. exact canonicalise_map. Qed.
+Print Assumptions C17_canonicalise_branch.
+
+(* MAIN: a matrix given by ANY list of (row, column, value) triples with non-negative values - coordinates may repeat,
+   the list is in any order (CSR, CSC and COO storage differ in that order only), explicit zeros allowed.  The weights
+   computed from the canonicalised storage are the KL sums of the dense matrix the triples denote, D i j = the sum of
+   the values given for (i, j). *)
+Theorem C17_layout_duplicates : forall eps (n m : nat) (tr : list (Z * Z * R)) (s : R),
+  Forall (fun t => (0 <= fst (fst t) < Z.of_nat n)%Z /\ (0 <= snd (fst t) < Z.of_nat m)%Z /\ 0 <= snd t) tr -> 0 < s ->
+  let D := fun i j : nat =>
+    sumR (map snd (filter (fun t => (fst (fst t) =? Z.of_nat i)%Z && (snd (fst t) =? Z.of_nat j)%Z)%bool tr)) in
+  let rowsum := fun i => sumR (map (fun j => D i j) (seq 0 m)) in
+  let tot := sumR (map rowsum (seq 0 n)) in
+  let colsum := fun j => sumR (map (fun i => D i j) (seq 0 n)) in
+  information_weight R (R_ops eps) false n (csc_of_triples m tr) s
+  = map (fun j => Some (sumR (map (fun i =>
+                                     let b := rowsum i / tot in
+                                     let q := (D i j + s * b) / (colsum j + s) in
+                                     q * ln (q / b))
+                                  (seq 0 n))))
+        (seq 0 m).
+Proof. exact information_weight_triples. Qed.
+Print Assumptions C17_layout_duplicates.
+
+(* ... hence the order of the triples is irrelevant ... *)
+Theorem C17_layout_duplicates_order : forall eps n m (tr tr' : list (Z * Z * R)) s,
+  triples_ok n m tr -> Permutation tr tr' -> 0 < s ->
+  information_weight R (R_ops eps) false n (csc_of_triples m tr) s
+  = information_weight R (R_ops eps) false n (csc_of_triples m tr') s.
+Proof. exact information_weight_triples_perm. Qed.
+Print Assumptions C17_layout_duplicates_order.
+
+(* ... and, at the level of stored columns, C17_layout / C17_is_kl_matrix / C17_weights_finite_nonneg without the
+   NoDup hypothesis: col_okd n c = indices in [0, n) and values >= 0; MxS = sum of the stored values by coordinate *)
+Theorem C17_is_kl_matrix_duplicates : forall eps (n : nat) (cols : list (list (Z * R))) (s : R),
+  Forall (col_okd n) cols -> 0 < s ->
+  information_weight R (R_ops eps) false n cols s
+  = map (fun j => Some (iw_spec n (length cols) s (MxS cols) j)) (seq 0 (length cols)).
+Proof. exact information_weight_R_dup. Qed.
+Print Assumptions C17_is_kl_matrix_duplicates.
+
+Theorem C17_layout_any : forall eps n cols cols' s,
+  Forall (col_okd n) cols -> Forall (col_okd n) cols' -> length cols = length cols' -> 0 < s ->
+  (forall i j, (i < n)%nat -> (j < length cols)%nat -> MxS cols i j = MxS cols' i j) ->
+  information_weight R (R_ops eps) false n cols s = information_weight R (R_ops eps) false n cols' s.
+Proof. exact information_weight_layout_dup. Qed.
+Print Assumptions C17_layout_any.
+
+Theorem C17_weights_finite_nonneg_duplicates : forall eps (n : nat) (cols : list (list (Z * R))) (s : R),
+  Forall (col_okd n) cols -> 0 < s -> 0 < total (MxS cols) n (length cols) ->
+  Forall (fun w => exists x, w = Some x /\ 0 <= x) (information_weight R (R_ops eps) false n cols s).
+Proof. exact information_weight_nonneg_dup. Qed.
+Print Assumptions C17_weights_finite_nonneg_duplicates.
+
+(* the sum-by-coordinate meaning: order-independent and blind to explicit zeros with no side condition (compare
+   C17_layout_order, C17_layout_explicit_zero), and equal to the plain lookup of the NoDup theorems when no row repeats *)
+Theorem C17_layout_duplicates_meaning : forall (c c' : list (Z * R)) (i k : Z),
+  (Permutation c c' -> lookup_sum k c = lookup_sum k c')
+  /\ lookup_sum k ((i, 0) :: c) = lookup_sum k c
+  /\ (NoDup (map fst c) -> lookup_sum k c = lookup R 0 k c).
+Proof.
+  intros c c' i k. split; [apply lookup_sum_perm|]. split; [apply lookup_sum_explicit_zero|apply lookup_sum_nodup].
+Qed.
+Print Assumptions C17_layout_duplicates_meaning.
+
+(* without duplicates the canonicalisation is sort_indices: same dense meaning as C17_sort_indices gives *)
+Theorem C17_layout_duplicates_nodup : forall eps (c : list (Z * R)) k,
+  NoDup (map fst c) -> lookup R 0 k (canon_col R (R_ops eps) c) = lookup R 0 k (sort_col R c).
+Proof.
+  intros eps c k H. destruct (canon_col_spec eps c) as (_ & Hl & _). rewrite Hl.
+  change (lookup_sum k c = lookup R 0 k (sort_col R c)). rewrite lookup_sort_col by exact H. apply lookup_sum_nodup. exact H.
+Qed.
+Print Assumptions C17_layout_duplicates_nodup.
 
 Theorem C17_transform_is_diag_scaling : forall eps rows w i j, (i < length rows)%nat ->
   (j < length (nth i rows []))%nat -> (j < length w)%nat ->
@@ -192,3 +284,17 @@ Example C17_ex_perm : Permutation (map (fun i => (2 - i)%nat) (seq 0 3)) (seq 0 
 Proof. simpl. apply Permutation_rev with (l := [2; 1; 0]%nat). Qed.
 Example C17_ex_search : searchsorted [0; 2; 5; 9]%Z 5%Z = 2%nat.
 Proof. vm_compute. reflexivity. Qed.
+(* duplicates: the failing matrix of the repaired defect, csr_matrix(([1,1,2,3,4,1,1],[0,0,2,0,1,1,2],[0,3,3,5,7])), as
+   triples; its CSC storage repeats row 0 in column 0, and the canonical form adds the two entries up *)
+Definition C17_ex_triples : list (Z * Z * R) :=
+  [(0%Z, 0%Z, 1); (0%Z, 0%Z, 1); (0%Z, 2%Z, 2); (2%Z, 0%Z, 3); (2%Z, 1%Z, 4); (3%Z, 1%Z, 1); (3%Z, 2%Z, 1)].
+Example C17_ex_triples_ok : triples_ok 4 3 C17_ex_triples.
+Proof. unfold triples_ok, C17_ex_triples, t_row, t_col, t_val. repeat (apply Forall_cons || apply Forall_nil); simpl; repeat split; try lia; try lra. Qed.
+Example C17_ex_triples_dup : ~ NoDup (map fst (nth 0 (csc_of_triples 3 C17_ex_triples) [])).
+Proof. simpl. intro H. inversion H as [|? ? Hn _]; subst. apply Hn. left. reflexivity. Qed.
+Definition C17_ex_Zops : Ops Z :=
+  mkOps Z 0%Z 1%Z 0%Z 0%Z Z.add Z.sub Z.mul Z.div Z.opp (fun x => x) Z.abs (fun x => x) (Z.eqb 0) Z.ltb Z.of_nat.
+Example C17_ex_sum_dups : map fst (sum_dups Z C17_ex_Zops [(0, 1); (0, 1); (2, 3)]%Z) = [0; 2]%Z
+                          /\ map snd (sum_dups Z C17_ex_Zops [(0, 1); (0, 1); (2, 3)]%Z) = [2; 3]%Z.
+Proof. vm_compute. split; reflexivity. Qed.
+
